@@ -103,11 +103,11 @@ def case_strategy(draw):
         # centres = positions of K distinct rows -> every centre attracts >= 1 object
         _, recs = sources.expected_records(table, degrees)
         uniq = np.unique(recs[:, :2], axis=0)
-        K = draw(st.integers(1, min(6, len(uniq))))
+        K = draw(st.integers(1, min(draw(st.sampled_from([6, 6, 6, 13])), len(uniq))))  # sometimes two-digit patch ids
         idx = draw(st.lists(st.integers(0, len(uniq) - 1), min_size=K, max_size=K, unique=True))
         case["centers"] = uniq[idx].tolist()
     elif mode == "ids":
-        K = draw(st.integers(1, min(6, n)))
+        K = draw(st.integers(1, min(draw(st.sampled_from([6, 6, 6, 13])), n)))
         rest = draw(st.lists(st.integers(0, K - 1), min_size=n - K, max_size=n - K))
         pid = draw(st.permutations(list(range(K)) + rest))
         table["pid"] = list(pid)
